@@ -333,11 +333,21 @@ def r6_diff(ctx, retsets):
               "%s:%d" % (fn.relfile, fn.line), "the old table's callback is NULL while its entries are removed and is restored afterwards", key="C10.R6:diff:silence")
 
 
+def r6_writers(ctx):
+    """the callback is configuration of the table object: set at creation, cleared at silent destruction, silenced and restored around
+    the reload diff - nothing else may write it (a swap or a copy that touched it would redirect or suppress notifications)"""
+    pdb = ctx.pdb
+    writers = sorted({i.fn.name for i in vf.stores_to_field(pdb, "spki_table.update_fp")})
+    ctx.check(set(writers) <= {"spki_table_init", "spki_table_free_without_notify", "spki_table_notify_diff"} and "spki_table_init" in writers,
+              "C10.R6", "callback-writers", "rtrlib/spki/hashtable/ht-spkitable.c", "update_fp written in %s" % writers, key="C10.R6:callback-writers")
+
+
 def check(ctx):
     retsets = flow.return_sets(ctx.pdb)
     r1(ctx)
     r2(ctx, retsets)
     r3_r5_r6(ctx, retsets)
+    r6_writers(ctx)
     r4(ctx)
     r6_diff(ctx, retsets)
     ctx.not_decided("tommyds internals: correctness of the linear hash table's split/merge and of the list primitives")
